@@ -1,16 +1,18 @@
-"""Which properties are claimed, at which level, with which note.  MANIFEST.json is generated from this."""
-NOTE_COMMON = ("Trusted: Lean 4.33 kernel; axioms per theorem audited each run (subset of propext, Classical.choice, "
-               "Quot.sound; no native_decide/bv_decide/sorry); the Python correspondence harness and the table translator; "
-               "the compiled driver fcdrv; numpy/CPython behave as modelled (sampled on every run, not proved). ")
+"""Which properties are claimed: one JSON file per claimed property under harness/claims/.
+MANIFEST.json is generated from these by mkmanifest.py; unclaimed properties get the reason in
+harness/claims/not_applicable.json (or the 'pending' default)."""
+import glob
+import json
+import os
 
-CLAIMED = {
-    "C01": {
-        "technique": "Lean 4 theorems over a hand-written model (integer-unit IEEE rounding model, array-level induction) + differential correspondence against FuzzyEquality through the Lean driver + exact-rational search oracle",
-        "text": "Theorems C01_* (FcProofs/Props/C01.lean) prove for all float64 arrays/tolerances that the modelled FuzzyEquality verdict is the conjunction of the documented formula over all entries with the shape rule, that the boundary counts as equal and that the exact-arithmetic formula implies the floating one; the model is tied to the code by running both on boundary-directed cases every run.",
-        "note": NOTE_COMMON + "Modelled rather than verified: numpy float64 arithmetic = round-to-nearest-even (Fc.rndMag), dtype promotion for the listed dtype pairs; float16/longdouble, NaN/inf entries outside the claim.",
-        "design_ref": "DESIGN.md §7 C01",
-    },
-}
+HERE = os.path.dirname(os.path.abspath(__file__))
+CLAIMED = {}
+for p in sorted(glob.glob(os.path.join(HERE, "claims", "C*.json"))):
+    c = json.load(open(p))
+    CLAIMED[c["property_id"]] = c
 
-_PENDING = "check not built yet in this round (design in DESIGN.md §7); will be claimed when its model, theorems and correspondence exist"
-NOT_APPLICABLE = {f"C{n:02d}": _PENDING for n in range(1, 21) if f"C{n:02d}" not in CLAIMED}
+_PENDING = ("check not built yet (design in DESIGN.md §7); it will be claimed when its model, theorems and "
+            "correspondence exist")
+_na_file = os.path.join(HERE, "claims", "not_applicable.json")
+_NA = json.load(open(_na_file)) if os.path.exists(_na_file) else {}
+NOT_APPLICABLE = {f"C{n:02d}": _NA.get(f"C{n:02d}", _PENDING) for n in range(1, 21) if f"C{n:02d}" not in CLAIMED}
